@@ -66,11 +66,11 @@ G(name="dns_decode_query", harness="h_dns.c", entry="h_dns_decode", defs=["H_QR=
   checks=PARSE_CHECKS, discard_cls=PARSE_DISCARD, props={"C12": "all", "C05": "safety"}, min_obl=100, timeout=600, cost=30,
   what="dns_decode, query direction (what the server runs on every datagram): exact-size datagram, arbitrary content")
 for tname, cost in (("T_NULL", 20), ("T_PRIVATE", 20), ("T_A", 20), ("T_CNAME", 20), ("T_MX", 200), ("T_SRV", 200), ("T_TXT", 20)):
-    G(name="dns_decode_answer_" + tname, harness="h_dns.c", entry="h_dns_decode", defs=["H_QR=QR_ANSWER", "H_TYPE=" + tname], style="legacy",
+    G(name="dns_decode_answer_" + tname, tier=("thorough" if tname in ("T_MX", "T_SRV") else "quick"), harness="h_dns.c", entry="h_dns_decode", defs=["H_QR=QR_ANSWER", "H_TYPE=" + tname], style="legacy",
       enforce=["dns_decode"], loops="dns.inv", loop_fns=["dns_decode"], checks=PARSE_CHECKS, discard_cls=PARSE_DISCARD,
       props={"C12": "all", "C06": "safety"}, min_obl=100, timeout=600, cost=cost, mem_gb=24,
       what="dns_decode, answer direction (what the client runs on every reply), question type %s (case split on the value the real readshort returns for the type field): exact-size datagram, arbitrary content" % tname)
-G(name="dns_decode_answer_other", harness="h_dns.c", entry="h_dns_decode", defs=["H_QR=QR_ANSWER", "H_CASE=4"], style="legacy",
+G(name="dns_decode_answer_other", tier="thorough", harness="h_dns.c", entry="h_dns_decode", defs=["H_QR=QR_ANSWER", "H_CASE=4"], style="legacy",
   enforce=["dns_decode"], loops="dns.inv", loop_fns=["dns_decode"], checks=PARSE_CHECKS, discard_cls=PARSE_DISCARD,
   props={"C12": "all", "C06": "safety"}, min_obl=100, timeout=900, cost=300, mem_gb=24,
   what="dns_decode, answer direction, every question type other than NULL/PRIVATE/A/CNAME/MX/SRV/TXT")
@@ -105,10 +105,28 @@ for ent, fn, props, what in (
     ("h_user_setters", "user_switch_codec", {"C04": "all", "C05": "safety"}, "user_switch_codec/user_set_conn_type: range-checked userid, only the named slot")):
     G(name=ent[2:], harness="h_user.c", entry=ent, enforce=[fn], style="legacy", unwind=33, shrink="user.c", cbmc_flags=["--no-array-field-sensitivity"], props=props, min_obl=5, cost=20, timeout=600, what=what)
 
+SRV_FLAGS = ["--no-array-field-sensitivity"]
+for uc in (0, 1):
+    G(name="srv_check_user_u%d" % uc, harness="h_iodined.c", entry="h_check_user", defs=["H_UID_CASE=%d" % uc], enforce=["check_user_and_ip", "check_authenticated_user_and_ip", "check_authenticated_user_and_ip_and_options"],
+      style="legacy", unwind=17, cbmc_flags=SRV_FLAGS, props={"C03": "all", "C04": "all", "C05": "safety"}, min_obl=10, timeout=600, cost=60, mem_gb=24,
+      what="check_user_and_ip family == the statement's predicate (live, not expired, own source with -c, logged in, options unlocked), both directions, userid case %s" % ("literal 0" if uc == 0 else "any other value"))
+    for cmd in "SONIR":
+        G(name="srv_cmd_%s_u%d" % (cmd, uc), harness="h_iodined.c", entry="h_cmd_guarded", defs=["H_UID_CASE=%d" % uc, "H_CMD='%s'" % cmd], enforce=["handle_null_request"],
+          style="legacy", unwind=17, cbmc_flags=SRV_FLAGS, props={"C03": "all", "C04": "all", "C05": "safety", "C15": "all", "C14": "all"}, min_obl=10, timeout=900, cost=200, mem_gb=24,
+          what="handle_null_request, command %s (either letter case), userid case %s: no setting changes / BADIP only unless the named session is live, from its own source and logged in; at most one answer; no tun write; SESSION_WF preserved" % (cmd, "literal 0" if uc == 0 else "any other value"))
+
 LEVELS = {}
 TRUSTED_BASE = ["CBMC 6.11.0 (goto-cc front end, goto-instrument --dfcc contract instrumentation, symex)",
                 "kissat (SAT back end)", "gcc -E (expansion of spec macros inside loop contracts)"]
-PROP_TRUST = {}
+PROP_TRUST = {"C12": ["stub contracts of readname/readtxtbin inside dns_decode (each proved in its own group)", "CBMC builtin memset; bounds-asserting havoc model of memcpy/strncpy/strlen (models/libc.h)"],
+              "C17": ["CBMC ctype models (ASCII)", "reference acceptor/matcher spec/domain.h"],
+              "C18": ["gcc -E + sed shrink rules for the user.c TU", "assumed contract snprintf+inet_addr", "calloc model"],
+              "C19": ["spec/md5.h (RFC 1321, self-checked on the RFC vectors)"],
+              "C20": ["CBMC builtin memcpy/memset for the fixed-size ring entries"]}
 ASSUMPTIONS = ["A1 CBMC/kissat are sound", "A11 only the Linux #ifdef branches are compiled (flags from src/osflags)"]
-PROP_ASSUME = {}
+PROP_ASSUME = {"C12": ["datagram length 0..65536 (recvfrom buffer size)", "q is never NULL (every call site passes a query object)", "answer buffer is NULL or 2..65536 bytes"],
+               "C17": ["A4 glibc ctype on negative char agrees with the ASCII models", "query names <= 255 characters (QUERY_NAME_SIZE)"],
+               "C18": ["A6 user.c TU with untouched array members shrunk", "A9 netmask range 8..30 enforced by main()"],
+               "C19": ["A9 password zero-padded to 32 bytes by main()"],
+               "C20": ["distinct ids among the 16 most recent forwarded queries (the property's own precondition)"]}
 EXPLAIN = {}
